@@ -548,6 +548,65 @@ def copied_instance_probes(rec):
                               case=case, target="copied-instance", replaced_kinds="sig")
 
 
+def copied_anon_probes(rec):
+    """An anonymous bundle given to one instance, COPIED, and the copy (or the original) extended / given to another instance: each
+    instance has the members the object connected to IT was given - a member added to one object never completes the other."""
+    import copy as _copy
+
+    import hdl21 as h
+
+    B = h.Bundle(name=f"CaB{next(build._counter)}")
+    B.add(h.Signal(), name="x")
+    B.add(h.Signal(), name="y")
+    Leaf = h.Module(name=f"CaLeaf{next(build._counter)}")
+    Leaf.add(B(port=True), name="b")
+    Leaf.add(h.R(r=1)(p=Leaf.b.x, n=Leaf.b.y), name="r")
+    for story in ("extend-copy", "extend-original", "both-complete", "copy-of-complete"):
+        rec.count("probe.copied-anon")
+        case = {"kind": "copied-anon", "story": story}
+        rec.case(key=jhash(case), nontrivial=True, sample=case)
+        m = h.Module(name=f"CaTop{next(build._counter)}")
+        for nm in ("s", "t", "u", "v"):
+            m.add(h.Signal(), name=nm)
+        a1 = h.AnonymousBundle(x=m.s)
+        want = None
+        try:
+            if story == "extend-copy":
+                m.i = Leaf(b=a1)
+                a2 = _copy.copy(a1)
+                a2.add("y", m.u)
+                m.j = Leaf(b=a2)
+                want = "refused"  # i.b has no member y
+            elif story == "extend-original":
+                a2 = _copy.copy(a1)
+                m.j = Leaf(b=a2)
+                a1.add("y", m.t)
+                m.i = Leaf(b=a1)
+                want = "refused"  # j.b has no member y
+            elif story == "both-complete":
+                a2 = _copy.copy(a1)
+                a1.add("y", m.t)
+                a2.add("y", m.u)
+                m.i, m.j = Leaf(b=a1), Leaf(b=a2)
+                want = {"i": {"b_x": "s", "b_y": "t"}, "j": {"b_x": "s", "b_y": "u"}}
+            else:
+                a1.add("y", m.t)
+                a2 = _copy.copy(a1)
+                m.i, m.j = Leaf(b=a1), Leaf(b=a2)
+                want = {"i": {"b_x": "s", "b_y": "t"}, "j": {"b_x": "s", "b_y": "t"}}
+            pkg = h.to_proto(m)
+        except Exception as e:
+            rec.count("ops.refused")
+            if want != "refused":
+                rec.violation(f"valid-final-mapping-rejected:{type(e).__name__}", f"anonymous bundle and its copy ({story}): export raised {str(e)[:100]}", case=case,
+                              target="copied-anon")
+            continue
+        got = {i.name: {c.portname: c.target.sig for c in i.connections} for i in pkg.modules[-1].instances}
+        if want == "refused" or got != want:
+            rec.violation("history-leaves-trace", f"anonymous bundle and its copy ({story}): the package has {got}, the connections written give "
+                          f"{want if want != 'refused' else 'an incomplete bundle on one instance (to be refused)'}", case=case, target="copied-anon", replaced_kinds="anon")
+
+
 def run(ctx, rec):
     rng = ctx.rng("c04")
     cases = []
@@ -598,6 +657,7 @@ def run(ctx, rec):
         special_port_probes(rec)
         special_bundle_port_probes(rec)
         copied_instance_probes(rec)
+        copied_anon_probes(rec)
     rec.exhaustive = False
     rec.extra["kind_sequences_enumerated"] = len(seqs)
 
@@ -608,6 +668,9 @@ def shards(ctx):
 
 def replay(ctx, rec, case):
     # re-install the concrete expressions
+    if case.get("kind") == "copied-anon":
+        copied_anon_probes(rec)
+        return
     if case.get("kind") == "copied-instance":
         copied_instance_probes(rec)
         return
